@@ -84,21 +84,25 @@ func verifMetric(m pmetric.Metric, kind int, points int, exemplars int, attrs in
 		h.SetAggregationTemporality(pmetric.AggregationTemporality(rt.Int32("hist.temporality")))
 		for i := 0; i < points; i++ {
 			dp := h.DataPoints().AppendEmpty()
-			dp.SetStartTimestamp(verifTS("hdp.start"))
 			dp.SetTimestamp(verifTS("hdp.time"))
-			dp.SetCount(rt.Uint64("hdp.count"))
-			dp.SetFlags(pmetric.DataPointFlags(rt.Uint32("hdp.flags")))
-			if rt.Bool("hdp.hasSum") {
-				dp.SetSum(rt.Float64("hdp.sum"))
+			if rt.Param("PART")&1 != 0 {
+				dp.SetStartTimestamp(verifTS("hdp.start"))
+				dp.SetCount(rt.Uint64("hdp.count"))
+				dp.SetFlags(pmetric.DataPointFlags(rt.Uint32("hdp.flags")))
+				if rt.Bool("hdp.hasSum") {
+					dp.SetSum(rt.Float64("hdp.sum"))
+				}
+				if rt.Bool("hdp.hasMin") {
+					dp.SetMin(rt.Float64("hdp.min"))
+				}
+				if rt.Bool("hdp.hasMax") {
+					dp.SetMax(rt.Float64("hdp.max"))
+				}
 			}
-			if rt.Bool("hdp.hasMin") {
-				dp.SetMin(rt.Float64("hdp.min"))
+			if rt.Param("PART")&2 != 0 {
+				dp.BucketCounts().FromRaw(verifU64s("hdp.buckets", 2))
+				dp.ExplicitBounds().FromRaw(verifF64s("hdp.bounds", 1))
 			}
-			if rt.Bool("hdp.hasMax") {
-				dp.SetMax(rt.Float64("hdp.max"))
-			}
-			dp.BucketCounts().FromRaw(verifU64s("hdp.buckets", 2))
-			dp.ExplicitBounds().FromRaw(verifF64s("hdp.bounds", 1))
 			verifAttrs(dp.Attributes(), "hdp.attr", attrs, 1|2)
 			for e := 0; e < verifCount("hdp.exemplars", exemplars); e++ {
 				verifExemplar(dp.Exemplars().AppendEmpty(), "ex")
@@ -109,25 +113,29 @@ func verifMetric(m pmetric.Metric, kind int, points int, exemplars int, attrs in
 		h.SetAggregationTemporality(pmetric.AggregationTemporality(rt.Int32("ehist.temporality")))
 		for i := 0; i < points; i++ {
 			dp := h.DataPoints().AppendEmpty()
-			dp.SetStartTimestamp(verifTS("edp.start"))
 			dp.SetTimestamp(verifTS("edp.time"))
-			dp.SetCount(rt.Uint64("edp.count"))
-			dp.SetScale(rt.Int32("edp.scale"))
-			dp.SetZeroCount(rt.Uint64("edp.zero"))
-			dp.SetFlags(pmetric.DataPointFlags(rt.Uint32("edp.flags")))
-			if rt.Bool("edp.hasSum") {
-				dp.SetSum(rt.Float64("edp.sum"))
+			if rt.Param("PART")&1 != 0 {
+				dp.SetStartTimestamp(verifTS("edp.start"))
+				dp.SetCount(rt.Uint64("edp.count"))
+				dp.SetScale(rt.Int32("edp.scale"))
+				dp.SetZeroCount(rt.Uint64("edp.zero"))
+				dp.SetFlags(pmetric.DataPointFlags(rt.Uint32("edp.flags")))
+				if rt.Bool("edp.hasSum") {
+					dp.SetSum(rt.Float64("edp.sum"))
+				}
+				if rt.Bool("edp.hasMin") {
+					dp.SetMin(rt.Float64("edp.min"))
+				}
+				if rt.Bool("edp.hasMax") {
+					dp.SetMax(rt.Float64("edp.max"))
+				}
 			}
-			if rt.Bool("edp.hasMin") {
-				dp.SetMin(rt.Float64("edp.min"))
+			if rt.Param("PART")&2 != 0 {
+				dp.Positive().SetOffset(rt.Int32("edp.pos.offset"))
+				dp.Positive().BucketCounts().FromRaw(verifU64s("edp.pos.buckets", 2))
+				dp.Negative().SetOffset(rt.Int32("edp.neg.offset"))
+				dp.Negative().BucketCounts().FromRaw(verifU64s("edp.neg.buckets", 1))
 			}
-			if rt.Bool("edp.hasMax") {
-				dp.SetMax(rt.Float64("edp.max"))
-			}
-			dp.Positive().SetOffset(rt.Int32("edp.pos.offset"))
-			dp.Positive().BucketCounts().FromRaw(verifU64s("edp.pos.buckets", 2))
-			dp.Negative().SetOffset(rt.Int32("edp.neg.offset"))
-			dp.Negative().BucketCounts().FromRaw(verifU64s("edp.neg.buckets", 1))
 			verifAttrs(dp.Attributes(), "edp.attr", attrs, 1|2)
 			for e := 0; e < verifCount("edp.exemplars", exemplars); e++ {
 				verifExemplar(dp.Exemplars().AppendEmpty(), "ex")
